@@ -243,7 +243,7 @@ def load_findings():
 
 def finding_for(pid, v, findings):
     for f in findings:
-        if f.get("status") != "open" or f.get("property") != pid:
+        if f.get("status") != "open" or pid not in [f.get("property")] + list(f.get("also", [])):
             continue
         keys = f.get("match", [])
         if any(k == v.finding_key or (k.endswith("*") and v.finding_key.startswith(k[:-1])) for k in keys):
@@ -345,7 +345,7 @@ def run_check(pid, units, tier, seed, level, notes=None, checker_cmd=None, assum
         return 1
     # stale fixed/open findings: an open finding that no longer fires is reported (not an error)
     for f in findings:
-        if f.get("status") == "open" and f.get("property") == pid and f["id"] not in known_hits:
+        if f.get("status") == "open" and f.get("property") == pid and f["id"] not in known_hits and f.get("match"):
             print(f"NOTE: listed finding {f['id']} did not fire in this run")
     if undecided:
         return 2
